@@ -244,6 +244,14 @@ def build(ctx):
     obs.append(Obligation("canary.int", "CANARY (must be refuted): d/d rho [rho Z_eos] > 0.7 on the rectangle (true minimum is about 0.58)", canary, fs, "INT", expect=be.REFUTED))
     if ctx.tier == "thorough":
         obs.append(lean_obligation(ctx, ['pyvc_unique_root']))
+    # ---------------- the tabulated column (observe_at: build_pvt_gas()['z-factor']) is z_factor_DAK at the row's own (T, p_j)
+    from . import c19
+    from ..oblig import Ctx
+    ctx19 = Ctx("C06", ctx.tier, ctx.seed)   # own engine: C19 treats z_factor_DAK as an opaque symbol, C06 must not
+    c19obs = {o.id: o for o in c19.build(ctx19)}
+    for oid, nid in (("pvt.rows", "table.z_is_dak"), ("pvt.grid", "table.grid")):
+        src = c19obs[oid]
+        obs.append(Obligation(nid, "tabulation: " + src.statement + " (so root-ness of z_factor_DAK carries to every row of the z-factor column, on the whole 10..maximum_pressure grid)", src.run, src.functions, src.backend, src.replay))
     return obs
 
 
